@@ -1531,12 +1531,12 @@ def rule_R7own(text, applied):
 
 
 def rule_R29(text, applied):
-    """`while let Some(X) = E { BODY }` -> its definition `loop { let wlN_ = E; match wlN_ { Some(X) => { BODY } None => { break; } } }`
+    """`while let PAT = E { BODY }` -> its definition `loop { let wlN_ = E; match wlN_ { PAT => { BODY } _ => { break; } } }`
     (so that a proof step can be placed between the evaluation of E and the test)."""
     cnt = 0
     while True:
         m_text = mask(text)
-        m = re.search(r"\bwhile\s+let\s+Some\(\s*(\w+)\s*\)\s*=\s*", m_text)
+        m = re.search(r"\bwhile\s+let\s+((?:\w+::)*\w+\((?:[^()]|\([^()]*\))*\))\s*=\s*", m_text)
         if not m:
             break
         ob = next_body_brace(m_text, m.end())
@@ -1544,8 +1544,10 @@ def rule_R29(text, applied):
             raise ExtractError("R29: no loop body")
         cb = match_close(m_text, ob)
         e = text[m.end():ob].strip()
-        head = f"loop {{ let wl{cnt}_ = {e}; match wl{cnt}_ {{ Some({m.group(1)}) => {{"
-        text = text[:m.start()] + _keep_newlines(text[m.start():ob + 1], head) + text[ob + 1:cb] + "} None => { break; } } }" + text[cb + 1:]
+        pat = text[m.start(1):m.end(1)]
+        # `while let PAT = E { B }` is `loop { match E { PAT => { B } _ => break } }` (Rust reference)
+        head = f"loop {{ let wl{cnt}_ = {e}; match wl{cnt}_ {{ {pat} => {{"
+        text = text[:m.start()] + _keep_newlines(text[m.start():ob + 1], head) + text[ob + 1:cb] + "} _ => { break; } } }" + text[cb + 1:]
         cnt += 1
     if cnt:
         applied.append(f"R29x{cnt}")
@@ -1666,6 +1668,88 @@ def rule_R34(text, applied):
         cnt += 1
     if cnt:
         applied.append(f"R34x{cnt}")
+    return text
+
+
+def rule_R35(text, applied):
+    """reference patterns in match arms over a `&Enum` scrutinee: `&PATH(a, b, _) => {` -> `PATH(a_r_, b_r_, _) => { let a = *a_r_;
+    let b = *b_r_;` (matching `&T` against `&P(a, b)` binds copies of the fields; with default binding modes `P(a, b)` binds
+    references, which are then dereferenced -- the fields must be Copy)."""
+    cnt = 0
+    while True:
+        m_text = mask(text)
+        m = re.search(r"&\s*((?:\w+::)+\w+)\(([^()]*)\)\s*=>\s*\{", m_text)
+        if not m:
+            break
+        names = [x.strip() for x in m.group(2).split(",")]
+        pats, lets = [], []
+        for n_ in names:
+            if n_ == "_" or n_ == ".." or not n_:
+                pats.append(n_)
+            elif re.fullmatch(r"\w+", n_):
+                pats.append(n_ + "_r_")
+                lets.append(f"let {n_} = *{n_}_r_;")
+            else:
+                raise ExtractError("R35: nested pattern in a reference pattern (outside the subset)")
+        new = f"{m.group(1)}({', '.join(pats)}) => {{ " + " ".join(lets)
+        text = text[:m.start()] + _keep_newlines(text[m.start():m.end()], new) + text[m.end():]
+        cnt += 1
+    if cnt:
+        applied.append(f"R35x{cnt}")
+    return text
+
+
+def rule_R16oiw(text, applied):
+    """`M.entry(K).or_insert_with(|| E)` on a map with Copy values -> a reference to the value that is looked up or, if
+    absent, computed by E and inserted (documented semantics of the entry API; the closure runs only when the key is absent):
+    `(&{ let k_ = K; match M.get(&k_) { Some(v_) => *v_, None => { let n_ = E; M.insert(k_, n_); n_ } } })`"""
+    cnt = 0
+    while True:
+        m_text = mask(text)
+        m = re.search(r"(\w+)\s*\.\s*entry\(([^()]*)\)\s*\.\s*or_insert_with\(\s*\|\|\s*", m_text)
+        if not m:
+            break
+        op = m_text.index("(", m_text.index("or_insert_with", m.start()))
+        cp = match_close(m_text, op)
+        e = text[m.end():cp].strip()
+        mp, k = m.group(1), " ".join(text[m.start(2):m.end(2)].split())
+        new = f"(&{{ let k_ = {k}; match {mp}.get(&k_) {{ Some(v_) => *v_, None => {{ let n_ = {e}; {mp}.insert(k_, n_); n_ }} }} }})"
+        text = text[:m.start()] + _keep_newlines(text[m.start():cp + 1], new) + text[cp + 1:]
+        cnt += 1
+    if cnt:
+        applied.append(f"R16oiwx{cnt}")
+    return text
+
+
+def rule_R9blockon(text, applied):
+    """sync projection: `S.async_runtime.block_on(E)` -> `E` (the value of a future that does not yield), and
+    `E.unwrap_or_else(|_| BODY)` on a Result -> `match E { Ok(v_) => v_, Err(_) => BODY }` (its definition)."""
+    cnt = 0
+    while True:
+        m_text = mask(text)
+        m = re.search(r"(?:\w+\s*\.\s*)*async_runtime\s*\.\s*block_on\s*\(", m_text)
+        if not m:
+            break
+        op = m.end() - 1
+        cp = match_close(m_text, op)
+        inner = text[op + 1:cp]
+        text = text[:m.start()] + _keep_newlines(text[m.start():op + 1], "(") + inner + text[cp:]
+        cnt += 1
+    while True:
+        m_text = mask(text)
+        m = re.search(r"\.\s*unwrap_or_else\s*\(\s*\|\s*_\w*\s*\|\s*", m_text)
+        if not m:
+            break
+        op = m_text.index("(", m_text.index("unwrap_or_else", m.start()))
+        cp = match_close(m_text, op)
+        body = text[m.end():cp].strip()
+        start = _receiver_start(m_text, m.start())
+        recv = text[start:m.start()]
+        new = f"(match {recv} {{ Ok(v_) => v_, Err(_) => {body} }})"
+        text = text[:start] + _keep_newlines(text[start:cp + 1], new) + text[cp + 1:]
+        cnt += 1
+    if cnt:
+        applied.append(f"R9blockonx{cnt}")
     return text
 
 
@@ -1943,7 +2027,7 @@ RULES = {
     "R25": rule_R25, "R7optake": rule_R7optake,
     "R23": rule_R23, "R24": rule_R24,
     "R16push": rule_R16push, "R22": rule_R22, "R22flat": rule_R22flat,
-    "R20": rule_R20, "R21": rule_R21, "R7stackrev": rule_R7stackrev, "R7pairs": rule_R7pairs, "R7indexmap": rule_R7indexmap, "R12frozen": rule_R12frozen, "R34": rule_R34, "R31": rule_R31, "R30": rule_R30, "R26it": rule_R26it, "R29": rule_R29, "R7own": rule_R7own, "R28": rule_R28, "R27": rule_R27, "R8all": rule_R8all, "R16od": rule_R16od, "R10site": rule_R10site,
+    "R20": rule_R20, "R21": rule_R21, "R7stackrev": rule_R7stackrev, "R7pairs": rule_R7pairs, "R7indexmap": rule_R7indexmap, "R12frozen": rule_R12frozen, "R35": rule_R35, "R16oiw": rule_R16oiw, "R9blockon": rule_R9blockon, "R34": rule_R34, "R31": rule_R31, "R30": rule_R30, "R26it": rule_R26it, "R29": rule_R29, "R7own": rule_R7own, "R28": rule_R28, "R27": rule_R27, "R8all": rule_R8all, "R16od": rule_R16od, "R10site": rule_R10site,
     "R1": rule_R1, "R2": rule_R2, "R2ref": rule_R2ref, "R3": rule_R3, "R4": rule_R4, "R5": rule_R5,
     "R8max": rule_R8max, "R8cmpmax": rule_R8cmpmax, "R8resize_none": rule_R8resize_none, "R9": rule_R9, "R8position": rule_R8position, "R8rotate": rule_R8rotate, "R12refcell": rule_R12refcell,
     "R8slice": rule_R8slice, "R7iter": rule_R7iter, "R8bitget": rule_R8bitget, "R8intonext": rule_R8intonext, "R8rposition": rule_R8rposition, "R8contains": rule_R8contains, "R12cell": rule_R12cell, "R8resize_veccap": rule_R8resize_veccap, "R8collectid": rule_R8collectid, "R8index": rule_R8index, "subst": rule_subst,
